@@ -438,7 +438,9 @@ pub fn run_hash_script(out: &mut dyn std::io::Write, path: &str, seed: u64) {
 pub fn drive_hash_histories(out: &mut dyn std::io::Write, seed: u64, thorough: bool) {
     let mut rng = Rng::new(seed ^ 0xc08);
     let reps = if thorough { 12 } else { 2 };
-    for &(alg, n) in C08_ALGS.iter() {
+    // random histories also run Skein with output lengths below / above the state size (several output blocks)
+    let extra: [(&str, usize); 5] = [("Skein256", 64), ("Skein512", 24), ("Skein1024", 200), ("Skein512", 129), ("Skein256", 7)];
+    for &(alg, n) in C08_ALGS.iter().chain(extra.iter()) {
         let b = block_size(alg);
         let lens = [0usize, 1, 2, b - 1, b, b + 1, 2 * b - 1, 2 * b, 2 * b + 1, 3 * b + 5, b / 2, 7];
         for _ in 0..reps {
